@@ -356,26 +356,35 @@ func (run *Run) OverlapAfterFailure(emit func(lib.Finding)) int {
 		for _, fc := range fails {
 			for rep := 0; rep < 2; rep++ {
 				n++
-				_ = guarded(func() string { fc.f(); return "" })
-				g := newGate(false)
-				doneA := make(chan string, 1)
-				go func() { doneA <- guarded(func() string { return grp.a(g) }) }()
-				gotA, gotB, stuck := "", "", false
-				select {
-				case <-g.entered:
-					run.Rep.Count("c08.overlap.a_stopped_mid_call", 1)
-					gotB = guarded(grp.b)
-					close(g.release)
+				// one case with a time budget; on a timeout the whole case is run again, alone, with ten times
+				// the budget, and only a second timeout (or a wrong result) is reported
+				attempt := func(budget time.Duration) (gotA, gotB string, stuck bool) {
+					_ = guarded(func() string { fc.f(); return "" })
+					g := newGate(false)
+					doneA := make(chan string, 1)
+					go func() { doneA <- guarded(func() string { return grp.a(g) }) }()
 					select {
-					case gotA = <-doneA:
-					case <-time.After(5 * time.Second):
+					case <-g.entered:
+						run.Rep.Count("c08.overlap.a_stopped_mid_call", 1)
+						gotB = guarded(grp.b)
+						close(g.release)
+						select {
+						case gotA = <-doneA:
+						case <-time.After(budget):
+							stuck = true
+						}
+					case gotA = <-doneA: // never reached the gate
+						gotB = guarded(grp.b)
+					case <-time.After(budget):
 						stuck = true
+						close(g.release)
 					}
-				case gotA = <-doneA: // never reached the gate
-					gotB = guarded(grp.b)
-				case <-time.After(5 * time.Second):
-					stuck = true
-					close(g.release)
+					return
+				}
+				gotA, gotB, stuck := attempt(5 * time.Second)
+				if stuck {
+					run.Rep.Count("c08.overlap.watchdog_retries", 1)
+					gotA, gotB, stuck = attempt(50 * time.Second)
 				}
 				run.Rep.Count("c08.overlap.cases", 1)
 				if !stuck && normAddr(gotA) == normAddr(wantA) && normAddr(gotB) == normAddr(wantB) {
